@@ -48,7 +48,7 @@ class ShardCtx:
 
     # ---- randomness --------------------------------------------------------------------------------
     def rng(self, *salt: Any) -> random.Random:
-        text = json.dumps([self.seed, self.prop, self.shard, list(map(str, salt))])
+        text = json.dumps([self.seed, self.prop, list(map(str, salt))])
         return random.Random(int(hashlib.sha256(text.encode()).hexdigest()[:16], 16))
 
     # ---- budget ------------------------------------------------------------------------------------
